@@ -119,7 +119,11 @@ class Ctx:
             "violations": len(self.violations),
         }
         os.makedirs(os.path.join(VERIF, "evidence"), exist_ok=True)
-        with open(os.path.join(VERIF, "evidence", f"{self.prop}.json"), "w") as f:
+        ev_path = os.path.join(VERIF, "evidence", f"{self.prop}.json")
+        if os.environ.get("VERIF_ONLY_PINNED") or getattr(self, "replay", None):
+            # partial runs (witnesses only / replay of one recorded run) never overwrite the evidence of a full run
+            ev_path = os.path.join(os.environ.get("VERIF_SCRATCH", "/tmp"), f"evidence_partial_{self.prop}.json")
+        with open(ev_path, "w") as f:
             json.dump(ev, f, indent=1, default=str)
         shutil.rmtree(self.scratch_root, ignore_errors=True)
         print(f"[{self.prop}] tier={self.tier} seed={self.seed} evaluations={self.evaluations} "
